@@ -116,13 +116,13 @@ def wl_step(eng, d, cmd, update=False):
     return outcome, mismatch
 
 
-def db_scenario(text_good, text_bad, eng=None, corr=None):
+def db_scenario(text_good, text_bad, eng=None, corr=None, name="proj.zo", others=("oj.zo", "sub/proj.zo", "proj.zo.zo")):
     """create; damage; reindex twice; create again -> list of problems."""
     probs = []
     with Z.tmpdir("c08_") as d:
-        write_tree(d, {"good.zo": "# good\n\n- a note\n", "proj.zo": text_good})
+        write_tree(d, {"good.zo": "# good\n\n- a note\n", name: text_good})
         Z.db_create(d)
-        write_tree(d, {"proj.zo": text_bad})
+        write_tree(d, {name: text_bad})
         for attempt in (1, 2):
             try:
                 Z.db_reindex(d)
@@ -141,9 +141,9 @@ def db_scenario(text_good, text_bad, eng=None, corr=None):
         try:
             Z.db_create(d, update_whitelist=True)
             wl = open(os.path.join(d, ".zorg", "error_file_whitelist.txt")).read().split("\n")
-            if "proj.zo" not in wl:
+            if name not in wl:
                 probs.append("whitelisting create did not list the page")
-            out = Z.execute(d, "S note W f=proj G none")
+            out = Z.execute(d, "S note W f=proj G none") if name == "proj.zo" else ""
             if out.strip():
                 probs.append("a flagged page has indexed notes: %r" % out[:80])
         except Exception as e:  # noqa: BLE001
@@ -228,6 +228,10 @@ def run(oc, tier, seed):
     for text_bad in flagged[:n_sc]:
         corr = []
         probs = db_scenario(rng.choice(valid), text_bad, eng, corr)
+        if not probs and not corr:
+            # the same with a whitelisted page whose path contains blanks: the list is one page per LINE
+            probs = db_scenario(rng.choice(valid), text_bad, eng, corr, name="my proj notes.zo",
+                                others=("my", "proj", "notes.zo", "my proj notes.zo.zo"))
         oc.evaluations += 1
         oc.count("db_scenarios")
         oc.stats["whitelist_decisions_vs_model"] = WL_COMPARED[0]
